@@ -14,7 +14,9 @@ and for every deviation constant one run with that constant TRUE (--cinit=CInitD
 out-of-memory of the solver is reported as "inconclusive" and never fails a check.
 """
 import concurrent.futures
+import json
 import os
+import re
 import shutil
 import signal
 import subprocess
@@ -36,7 +38,8 @@ SPECS = {
         # with extra=True / VERIF_APALACHE_EXTRA=1 / `python -m crv.apalache APA_ScenarioStore --extra`
         "optional": [("refine", "IndInit", "InvRefines", 1, "NextRef")],
         "devs": [("CInitDev1", "step", "DEV_ListRemoveInterKeepsIncoming"), ("CInitDev2", "act", "DEV_PartialIntersection"),
-                 ("CInitDev3", "act", "DEV_PartialNetwork"), ("CInitDev4", "step", "DEV_AddNetOnNonEmpty")]},
+                 ("CInitDev3", "act", "DEV_PartialNetwork"), ("CInitDev4", "step", "DEV_AddNetOnNonEmpty"),
+                 ("CInitDev5", "step", "DEV_HangingFreesNamedIds")]},
     "APA_Writers": {
         "cinit": "CInit", "obligations": _STD + [_ACT],
         "devs": [("CInitDev1", "act", "DEV_GlobalPrecision"), ("CInitDev2", "step", "DEV_AccumulatingRoot"),
@@ -44,11 +47,58 @@ SPECS = {
     "APA_Cache": {
         "cinit": "CInit", "obligations": _STD + [_ACT],
         "devs": [("CInitDev1", "step", "DEV_NoInvalidateOnPredictionTR"), ("CInitDev2", "step", "DEV_NoReindexOnNetworkTR"),
-                 ("CInitDev3", "step", "DEV_NoInvalidateCycle"), ("CInitDev4", "step", "DEV_MergeRebuildOnlyIfAll")]},
+                 ("CInitDev3", "step", "DEV_NoInvalidateCycle"), ("CInitDev4", "step", "DEV_MergeRebuildOnlyIfAll"),
+                 ("CInitDev5", "step", "DEV_SetterSkipsSameObject")]},
     "APA_TrafficLight": {
         "cinit": "CInit", "obligations": _STD + [_ACT],
         "devs": [("CInitDev1", "prop", "DEV_TruncatedRemainder")]},
 }
+
+
+# ---- drift guard: the APA_ modules are hand transcriptions of MC_<M>.tla; a later change of the MC model must be visible ----
+_RE_DEF = re.compile(r"^([A-Za-z_]\w*)(\([^)]*\))?\s*==", re.M)
+_RE_COMMENT = re.compile(r"\(\*.*?\*\)|\\\*[^\n]*", re.S)
+
+
+def _defs(text):
+    """top-level definitions of a module: name -> body text (comments removed)"""
+    text = _RE_COMMENT.sub("", text)
+    ms = list(_RE_DEF.finditer(text))
+    return {m.group(1): text[m.end():(ms[i + 1].start() if i + 1 < len(ms) else len(text))] for i, m in enumerate(ms)}
+
+
+def mc_actions(mc_text):
+    """names used in the disjuncts of Next whose own definition is an action (mentions a primed variable or UNCHANGED)"""
+    d = _defs(mc_text)
+    used = set(re.findall(r"[A-Za-z_]\w*", d.get("Next", "")))
+    return sorted(n for n in used if n in d and n != "Next" and ("'" in d[n] or "UNCHANGED" in d[n]))
+
+
+def drift(module):
+    """Compare MC_<M>.tla with the `\\* COVERS: {json}` line of APA_<M>.tla.  Returns a list of messages (empty = in step)."""
+    with open(os.path.join(tlc.SPEC, module + ".tla")) as f:
+        apa = f.read()
+    m = re.search(r"^\\\*\s*COVERS:\s*(\{.*\})\s*$", apa, re.M)
+    if not m:
+        return ["drift: %s declares no COVERS line" % module]
+    cov = json.loads(m.group(1))
+    mc = cov.get("mc", "MC_" + module[4:])
+    with open(os.path.join(tlc.SPEC, mc + ".tla")) as f:
+        mc_text = f.read()
+    msgs = []
+
+    def cmp(kind, have, declared):
+        for x in sorted(set(have) - set(declared)):
+            msgs.append("drift: %s has %s %s that %s does not cover" % (mc, kind, x, module))
+        for x in sorted(set(declared) - set(have)):
+            msgs.append("drift: %s covers %s %s that %s no longer has" % (module, kind, x, mc))
+    cmp("action", mc_actions(mc_text), cov.get("actions", []))
+    cmp("deviation constant", set(re.findall(r"\bDEV_\w+", _RE_COMMENT.sub("", mc_text))), cov.get("devs", []))
+    if "tokens" in cov:       # token universe of the functional core (<M>.tla: `NAME |-> T(...)`)
+        with open(os.path.join(tlc.SPEC, mc[3:] + ".tla")) as f:
+            core = _RE_COMMENT.sub("", f.read())
+        cmp("token", set(re.findall(r"\b(\w+)\s*\|->\s*T\(", core)), cov["tokens"])
+    return msgs
 
 
 def run(module, init, inv, length, cinit=None, tag="run", timeout=900, xmx="6g", nxt=None):
@@ -100,10 +150,16 @@ def check_inductive(module, timeout=900, parallel=4, xmx="6g", devs=True, extra=
 
     Returns dict(ok, wall_s, verdicts, note):
       verdicts  {obligation or DEV name: "holds" | "counterexample" | "inconclusive: timeout" | ...}
+      drift     messages of the drift guard (MC_<M> actions / DEV_ constants / tokens vs. the COVERS line of APA_<M>); reported,
+                never a failure
       ok        False only for a counterexample on the unchanged model, a deviation variant that passes, or a tool error
                 (all three are machinery errors); timeouts / out-of-memory leave ok True and are named in `note`.
     """
     spec = SPECS[module]
+    try:
+        drifted = drift(module)
+    except (OSError, ValueError) as ex:
+        drifted = ["drift: guard could not compare %s with its MC model (%s)" % (module, ex)]
     if extra is None:
         extra = os.environ.get("VERIF_APALACHE_EXTRA") == "1"
     obl = {o[0]: o for o in spec["obligations"] + (spec.get("optional", []) if extra else [])}
@@ -142,8 +198,8 @@ def check_inductive(module, timeout=900, parallel=4, xmx="6g", devs=True, extra=
             if st != "holds":
                 ok = False
                 problems.append("%s: counterexample on the unchanged model, see %s" % (name, r["out_dir"]))
-    note = "; ".join(problems + (["inconclusive: " + ", ".join(inconclusive)] if inconclusive else []))
-    return {"ok": ok, "wall_s": round(time.time() - t0, 1), "verdicts": verdicts, "note": note}
+    note = "; ".join(problems + drifted + (["inconclusive: " + ", ".join(inconclusive)] if inconclusive else []))
+    return {"ok": ok, "wall_s": round(time.time() - t0, 1), "verdicts": verdicts, "note": note, "drift": drifted}
 
 
 def append_run(ctx, module, **kw):
@@ -155,6 +211,9 @@ def append_run(ctx, module, **kw):
     main = [k for k in r["verdicts"] if not k.startswith("DEV_")]
     if not r["ok"]:
         verdict = "FAILED: " + r["note"]
+    elif r.get("drift"):      # the obligations below are about a transcription that no longer matches the MC model
+        verdict = "inconclusive: " + "; ".join(r["drift"]) + " -- obligations on the wrapper as it is: " \
+                  + ", ".join("%s %s" % (k, v) for k, v in r["verdicts"].items())
     elif any(v.startswith("inconclusive") for v in r["verdicts"].values()):
         verdict = "inconclusive: " + ", ".join("%s %s" % (k, v.split(": ", 1)[1]) for k, v in r["verdicts"].items()
                                               if v.startswith("inconclusive")) \
